@@ -83,13 +83,18 @@ fn host_if(k: u8, dual: bool) -> Vec<IfSpec> {
 }
 
 /// Two or three daemons claiming the same names.
-pub fn scenario_peers(id: u64, seed: u64, _thorough: bool) -> Vec<Value> {
+pub fn scenario_peers(id: u64, seed: u64, thorough: bool) -> Vec<Value> {
+    scenario_peers_at(id, seed, thorough, None)
+}
+
+/// `starts`: start ticks (250 ms) enumerated by TLC from ProbeMech.tla; a seeded jitter below one tick is added.
+pub fn scenario_peers_at(id: u64, seed: u64, _thorough: bool, starts: Option<Vec<u64>>) -> Vec<Value> {
     let mut r = Rng::new(seed.wrapping_mul(2038074743).wrapping_add(id));
-    let n = if r.chance(1, 4) { 3 } else { 2 };
+    let n = match &starts { Some(v) => v.len(), None => if r.chance(1, 4) { 3 } else { 2 } };
     let dual = r.chance(1, 3);
     let hosts: Vec<Vec<IfSpec>> = (0..n).map(|k| host_if(k as u8, dual)).collect();
     let link: Vec<(usize, u32)> = (0..n).map(|k| (k, 2u32)).collect();
-    let mut s = Sim::new(json!({"id": id, "family": "conflict", "kind": "peers", "n": n, "dual": dual}), seed ^ id, hosts, vec![link]);
+    let mut s = Sim::new(json!({"id": id, "family": if starts.is_some() { "probecases" } else { "conflict" }, "kind": "peers", "n": n, "dual": dual}), seed ^ id, hosts, vec![link]);
     let inst = *r.pick(&["Shared", "Dot.ted", "Num (2)", "Caf\u{e9}"]);
     let host = *r.pick(&["samehost.local.", "host-2.local.", "Host.local."]);
     let same_host = r.chance(2, 3);
@@ -97,6 +102,9 @@ pub fn scenario_peers(id: u64, seed: u64, _thorough: bool) -> Vec<Value> {
     let mut offs: Vec<u64> = vec![0];
     for _ in 1..n {
         offs.push(match r.below(5) { 0 => 0, 1 => r.below(300), 2 => r.below(1100), 3 => r.range(700, 2500), _ => r.range(2000, 4500) });
+    }
+    if let Some(v) = &starts {
+        offs = v.iter().map(|t| t * 250 + r.below(250)).collect();
     }
     let mut ds = vec![];
     for k in 0..n {
